@@ -26,3 +26,31 @@ Fixpoint mism_from (i : nat) (cs : list case) : list (nat * nat) :=
                 end
   end.
 Definition mismatches (cs : list case) := mism_from 0 cs.
+
+(* ---------------------------------------------------------------- text level (appended)
+   CaseX: one query TEXT (valid or corrupted) on one store through NewOptimizer(q).BuildPlan +
+   drain, compared by outcome class with the WHOLE text twins Model/PipelineS.v / PipelineW.v
+   (Corr/C06Text.v, codes there).  The case files define their list with the type [xcase]; the
+   evaluator-level cases above are embedded under their old name. *)
+From KV Require Import Corr.C06Text.
+
+Inductive xcase :=
+  | XBase (c : case)
+  | CaseX (t : tcase).
+Definition XCase (e : expr) (rows : list (bytes * bytes * obs)) : xcase := XBase (Case e rows).
+
+Definition xcheck_case (c : xcase) : nat :=
+  match c with
+  | XBase b => check_case b
+  | CaseX t => check_text t
+  end.
+
+Fixpoint xmism_from (i : nat) (cs : list xcase) : list (nat * nat) :=
+  match cs with
+  | [] => []
+  | c :: cs' => match xcheck_case c with
+                | 0 => xmism_from (S i) cs'
+                | k => (i, k) :: xmism_from (S i) cs'
+                end
+  end.
+Definition xmismatches (cs : list xcase) : list (nat * nat) := xmism_from 0 cs.
